@@ -249,15 +249,20 @@ PROPS["C01"] = {
     "level": "proof",
     "level_text": "Model of both parsers' walkType (get-or-create by name, mark-then-fill, alias rule, flattening rule, methods phase, v2 "
                   "generics and alias unwrapping), of Universe.Type/Function/Variable/Constant/Package with the builtin import, and of "
-                  "declarations and package scans. Kernel-checked so far: the regenerated builtins tables bind every Go scalar to a type of "
-                  "the same Go type, share an object only between spellings of one type, and are complete; naming of anonymous types. On the "
-                  "full model (Lemmas/WalkInv.lean, used by C06/C11) every step of walkType, the declaration and package scans and the loaders "
-                  "keeps the universe closed (every reference has a kind) and canonical (every reference is the object registered under its "
-                  "name), and after the scan of a requested package every non-generic named type of its scope is registered under its own "
-                  "name with a kind, whatever was loaded before. PARTIAL: that the attributes recorded for an object are those of its Go node (the 'describes' half of the walk "
-                  "invariant) is proved on the reduced prototype model only (proto/Walk2Inv.lean); on the full model it is carried by the "
-                  "correspondence and the oracle. Complete canonical universe dumps of the real v1 and v2 loaders are compared with "
-                  "the model on generated programs, and an oracle walks go/types independently and compares every reported attribute.",
+                  "declarations, package scans and both loaders. Kernel-checked: the regenerated builtins tables bind every Go scalar to a "
+                  "type of the same Go type, share an object only between spellings of one type, and are complete. On the full model, for "
+                  "every fact graph, every call depth and both loaders (Lemmas/WalkInv.lean, WalkDesc.lean, ~2100 lines): the universe stays "
+                  "closed and canonical (C06); after the scan of a requested package every non-generic named type of its scope is "
+                  "registered under its own name with a kind; and - for programs without generic declarations - every object walkType filled "
+                  "from a node of the type checker's graph has that node's kind and, attribute by attribute in declaration order, "
+                  "references to the objects registered under the names of the node's children: element, key, array length, struct "
+                  "members with name, embedded flag and verbatim tag, parameters, results, variadic flag, receiver, underlying type of a "
+                  "defined type (alias rule) and the struct/… shape of a defined type (flattening rule); objects that already have a kind "
+                  "are never touched by a later walk. PARTIAL: method sets and generic declarations are outside the kernel-checked "
+                  "description (the methods phase is proved to leave everything else intact); that equal node names mean equal types is "
+                  "go/types' String(). Complete canonical universe dumps of the real v1 and v2 loaders are compared with the model on "
+                  "generated programs (incl. generics, methods, incremental loads with hand lookups), and an oracle walks go/types "
+                  "independently and compares every reported attribute.",
     "level_note": _UNI_NOTE,
     "rule": "well-typed multi-package programs (1..3 packages, 2..7 type declarations each: structs with tags/embedded/unexported fields and "
             "self references, defined types over basics/maps/slices/pointers/arrays/channels/functions/interfaces/other named types, methods "
